@@ -425,8 +425,11 @@ impl<T: Qcow2IoOps> Qcow2Dev<T> {
     pub(crate) async fn flush_refcount(&self) -> Qcow2Result<()> {
         let mut rt_written = false;
 
+        // lock order: reftable first, see add_rb_slice()
+        let rt = &*self.reftable.read().await;
+        let _flush_lock = self.refcount_flush_lock.lock().await;
+
         loop {
-            let rt = &*self.reftable.read().await;
             let done = self
                 .flush_meta_generic(rt, &self.refblock_cache, |off| {
                     self.rb_slice_key_of_rt_off(off)
